@@ -238,7 +238,9 @@ def _post_avg(mon, call):
             where = f" - that is the result of task #{src[0]}" if src else ""
             kind = {"constant": "constant-value", "zeroshot": "zero-shot-value"}.get(
                 v.kind, "basis-state-value" if v.bits is not None else "estimate-vs-delivered-shots")
-            if src:
+            if v.kind == "constant" and len(v.terms) >= 2 and len(vals) == 1 and _close(vals[0], v.terms[0][1]):
+                kind = "constant-unsimplified-sum-first-term-only"
+            elif src:
                 kind = "result-at-wrong-index"
             mon.violation(kind, f"kinds={kinds}: position {i} holds {vals!r}, expected {exp!r}{where} for {_tdesc(v, i)}"
                           + (f" basis state {v.bits}" if v.kind == "measured" and v.bits is not None else ""))
@@ -311,8 +313,10 @@ def _post_nonmeasured(mon, call):
         vals = _vals(r)
         exp = _expected_vector(v)
         if not _vec_close(vals, exp):
-            mon.violation("constant-value" if v.kind == "constant" else "zero-shot-value",
-                          f"non-measured kinds={kinds}: position {i} holds {vals!r}, expected {exp!r} for {_tdesc(v, i)}")
+            kind = "constant-value" if v.kind == "constant" else "zero-shot-value"
+            if v.kind == "constant" and len(v.terms) >= 2 and len(vals) == 1 and _close(vals[0], v.terms[0][1]):
+                kind = "constant-unsimplified-sum-first-term-only"
+            mon.violation(kind, f"non-measured kinds={kinds}: position {i} holds {vals!r}, expected {exp!r} for {_tdesc(v, i)}")
             return
     mon.ok(name)
 
